@@ -190,7 +190,23 @@ def run(ctx):
             and isinstance(stores[0].targets[0].value, ast.Name) and src(stores[0].value) == '%s[%s]' % (xparam, j)
         XS = stores[0].targets[0].value.id if okg else None
         # the gathered vector is what the group model is evaluated at
-        used = XS is not None and any(isinstance(n, ast.Call) and src(n.func) == 'group_activity_coefficients' and n.args and src(n.args[0]) == XS
+        # names that denote the gathered vector: XS itself and locals bound to it (x_sub = tmp;  x_sub, s = (tmp, tmp.sum()))
+        XS_alias = {XS}
+        grew = True
+        while grew and XS is not None:
+            grew = False
+            for n in walk_no_nested(f.node):
+                if not isinstance(n, ast.Assign):
+                    continue
+                for tg in n.targets:
+                    pairs_ = [(tg, n.value)]
+                    if isinstance(tg, (ast.Tuple, ast.List)) and isinstance(n.value, (ast.Tuple, ast.List)) and len(tg.elts) == len(n.value.elts):
+                        pairs_ = list(zip(tg.elts, n.value.elts))
+                    for t_, v_ in pairs_:
+                        if isinstance(t_, ast.Name) and isinstance(v_, ast.Name) and v_.id in XS_alias and t_.id not in XS_alias:
+                            XS_alias.add(t_.id)
+                            grew = True
+        used = XS is not None and any(isinstance(n, ast.Call) and src(n.func) == 'group_activity_coefficients' and n.args and src(n.args[0]) in XS_alias
                                       for n in walk_no_nested(f.node))
         if okg and used and XS != xparam:
             d3.ok(k, 'gather: x_sub[i] <- x[index[i]] (and the group model is evaluated at x_sub)', f, gl)
